@@ -577,6 +577,53 @@ def e(ck: Check) -> None:
           "every function restricted to the percolated space; constants removed on request only", key="functions")
 
 
+def _remainder_of_parent(fm: FuncModel, v_, d_, c, cn, want: str) -> bool:
+    """`{k: v for k, v in node_space.items() if k not in P["space"]}` as the restricting space, where the base net is P's own
+    cached net on the same path: P's net has already lost the variables P fixes, and the node's space extends P's, so only the
+    remainder is left to eliminate. Anything else (the edge motif, another node's space) is not accepted."""
+    import re as _re
+    if not (isinstance(v_, ast.DictComp) and len(v_.generators) == 1 and len(v_.generators[0].ifs) == 1):
+        return False
+    g = v_.generators[0]
+    if not (isinstance(g.target, ast.Tuple) and len(g.target.elts) == 2 and all(isinstance(e, ast.Name) for e in g.target.elts)
+            and isinstance(v_.key, ast.Name) and isinstance(v_.value, ast.Name)
+            and (v_.key.id, v_.value.id) == (g.target.elts[0].id, g.target.elts[1].id)):
+        return False
+    it = g.iter
+    if not (isinstance(it, ast.Call) and isinstance(it.func, ast.Attribute) and it.func.attr == "items" and not it.args
+            and fm.key(it.func.value, d_) == want):
+        return False
+    t = g.ifs[0]
+    if not (isinstance(t, ast.Compare) and len(t.ops) == 1 and isinstance(t.ops[0], ast.NotIn) and isinstance(t.left, ast.Name)
+            and t.left.id == v_.key.id):
+        return False
+    m = _re.match(r"^FIELD<self\|(\w+)\|space>$", fm.key(t.comparators[0], d_) or "")
+    if not m:
+        return False
+    b0 = call_arg(c, 0, "petri_net")
+    if not isinstance(b0, ast.Name):
+        return False
+    # at the definition of the space the base is P's cached net ...
+    vals = list(fm.value_defs(b0.id, d_))
+    for _ in range(3):
+        nxt = []
+        for d2, v2 in vals:
+            if isinstance(v2, ast.Name) and v2.id not in fm.f.params():
+                nxt += list(fm.value_defs(v2.id, d2))
+            else:
+                nxt.append((d2, v2))
+        vals = nxt
+    if not vals or any(v2 is None or fm.key(v2, d2) != f"FIELD<self|{m.group(1)}|percolated_petri_net>" for d2, v2 in vals):
+        return False
+    # ... and stays so up to the call
+    between = fm.cfg.reach_avoiding(d_, []) & fm.cfg.can_reach_avoiding(cn, [])
+    for i in between:
+        a_ = fm.cfg.nodes[i].ast if fm.cfg.nodes[i].kind == "stmt" else None
+        if a_ is not None and any(isinstance(y, ast.Name) and y.id == b0.id and isinstance(y.ctx, ast.Store) for y in ast.walk(a_)):
+            return False
+    return True
+
+
 def f_(ck: Check) -> None:
     """The reduced net / network cached for a node is the restriction to that node's own (percolated) space, whichever
     base (the global one or the parent's cached one) the restriction starts from."""
@@ -600,6 +647,8 @@ def f_(ck: Check) -> None:
                 vals = [(d_, v_) for d_, v_ in fm.value_defs(a.id, cn)] if isinstance(a, ast.Name) else [(cn, a)]
                 for d_, v_ in vals:
                     k = fm.key(v_, d_) if v_ is not None else "?"
+                    if k != want and callee == "restrict_petrinet_to_subspace" and _remainder_of_parent(fm, v_, d_, c, cn, want):
+                        continue
                     if k != want:
                         probs.append(f"line {getattr(d_, 'lineno', c.lineno)}: the restriction uses `{text(v_)[:50] if v_ is not None else '?'}`, "
                                      f"not the node's own space: variables fixed by percolation (or by the rest of the space) stay "
